@@ -3,10 +3,10 @@
    the Go source statement by statement.  Theorems: Sdf/ScrewR.v (reals), Sdf/ThreadDB.v
    (database, by reflection).  Correspondence: Sdf/C18Corr.v. *)
 From Coq Require Import ZArith List Bool.
-From Sdfx Require Import Num.Ops Geo.Vec.
+From Sdfx Require Import Num.Ops.
+From Sdfx Require Import Geo.Vec.
 Import OpsNotations ListNotations.
 Local Open Scope ops_scope.
-
 Section Screw.
   Context {O : Ops}.
   Notation T := (T O).
